@@ -673,6 +673,7 @@ selex_append_block(ESL_MSAFILE *afp, ESL_SELEX_BLOCK *b, ESL_MSA *msa)
       p   = b->line[idx];
       pos = b->llen[idx] - 1;
       while (pos>=0 && isspace(p[pos])) pos--;
+      if (pos < b->lpos[idx]) b->lpos[idx] = -1;         /* lpos skipped " \t" only; isspace() also strips \f\v\r. Nothing else there: treat as a blank line */
       b->rpos[idx] = ( (pos < b->lpos[idx]) ? -1 : pos); /* -1: a completely blank seq line is valid */
     }
 
